@@ -70,7 +70,7 @@ def run_impl(case):
                 from cfinterface.data.registerdata import RegisterData
 
                 RF, _ = fsup.mk_register_file(case["regs"], "BINARY" if binary else "TEXT")
-                return count_appends(RegisterData, budget, (lambda: RF.read(x, case["linesize"])) if binary else (lambda: RF.read(x)))
+                return count_appends(RegisterData, budget, (lambda: RF.read(x, linesize=case["linesize"]) if case.get("linesize_kw") else RF.read(x, case["linesize"])) if binary else (lambda: RF.read(x)))
             if fam == "block":
                 from cfinterface.data.blockdata import BlockData
 
@@ -166,7 +166,11 @@ def random_case(rng):
             else:
                 rec = bytes(rng.choice(b"ZQ \x00\x01zz\n") for _ in range(rng.randrange(1, 8)))
             chunks.append(rec)
-        return {"family": "register", "binary": True, "regs": defs, "linesize": linesize, "x": list(b"".join(chunks))}
+        # the peek window goes in positionally or as a keyword (a keyword travels through **kwargs down to
+        # the elements); sometimes it is wider than whole records
+        if rng.random() < 0.3:
+            linesize += rng.choice([3, 8, 20])
+        return {"family": "register", "binary": True, "regs": defs, "linesize": linesize, "x": list(b"".join(chunks)), "linesize_kw": rng.random() < 0.5}
     if r < 0.7:
         c = c12.random_text_case(rng)
         return {"family": "block", "binary": False, "blocks": c["blocks"], "x": c["x"]}
